@@ -1,8 +1,140 @@
 import NflowsModel.Core.Driver
-/-! Core/Ops/C05 — driver operations used by the C05 correspondence (executable model, Mathlib-free). -/
+import NflowsModel.Core.Density
+/-! Core/Ops/C05 — driver operations used by the C05 correspondence (executable model, Mathlib-free).
+
+Ops (`s[0]` = class name where applicable; floats in `f` are bit patterns in precision `p`; `d` doubles):
+* `c05.logprob` — header ints `[ctxRows|-1, #shape, shape…, #inShape, inShape…, B]` (+ `[pB, #pShape, pShape…]` for the
+  conditional classes); `f = [x, …parameters]`.  MoG: `i=[ctx,B,F,M] d=[eps] f=[x, outs]`; BoxUniform `i=[B,D] f=[x,low,high]`;
+  MG1Uniform `i=[B] f=[x,low,high]`; Lotka `i=[B,D] f=[x,mu,low,high,[sigma]]` (answers `[logps, [normaliser]]`).
+* `c05.mean`, `c05.sample` — same headers without `inShape/B`, `sample` has `n` after `ctx`; noise travels in `f`.
+* `c05.kde` `i=[N,D,Q] f=[samples,queries]`; `c05.erf` `f=[xs]`; `c05.consts` `i=[D]` → `[π, log 2π, _log_z(D)]`.
+-/
 namespace NF
+open NF.Density
+
+namespace C05
+variable {α : Type} [Bits α]
+
+def optNat (i : Int) : Option Nat := if i < 0 then none else some i.toNat
+
+/-- read `count, items…` from an int stream -/
+def takeList (xs : List Int) : List Nat × List Int :=
+  match xs with
+  | [] => ([], [])
+  | c :: r => ((r.take c.toNat).map Int.toNat, r.drop c.toNat)
+
+def takeNat (xs : List Int) : Nat × List Int :=
+  match xs with
+  | [] => (0, [])
+  | c :: r => (c.toNat, r)
+
+def okRows (rows : List (List α)) : Resp := { fs := rows.map bitsOf }
+def ofExcept1 (x : Except DErr (List α)) : Resp :=
+  match x with
+  | .ok v => { fs := [bitsOf v] }
+  | .error e => { err := some e.name }
+def ofExceptRows (x : Except DErr (List (List α))) : Resp :=
+  match x with
+  | .ok v => { fs := [bitsOf v.flatten] }
+  | .error e => { err := some e.name }
+
+def logprob (o : XOps α) (r : Req) : Resp :=
+  let cls := r.str 0
+  let x : List α := r.fl 0
+  if cls == "MoG" then
+    let B := r.nat 1; let F := r.nat 2; let M := r.nat 3
+    ofExcept1 (mogLogProb o (o.ofFloat (r.d 0)) F M (optNat (r.int 0)) (rowsOf (F * M * 3) B (r.fl 1)) (rowsOf F B x))
+  else if cls == "BoxUniform" then
+    let B := r.nat 0; let D := r.nat 1
+    { fs := [bitsOf ((rowsOf D B x).map (boxUniformRow o (r.fl 1) (r.fl 2)))] }
+  else if cls == "MG1Uniform" then
+    let B := r.nat 0
+    let res := (rowsOf 3 B x).map (mg1LogProb o (r.fl 1) (r.fl 2))
+    match res.find? (fun y => match y with | .error _ => true | .ok _ => false) with
+    | some (.error e) => { err := some e.name }
+    | _ => { fs := [bitsOf (res.flatMap (fun y => match y with | .ok v => v | .error _ => []))] }
+  else if cls == "Lotka" then
+    let B := r.nat 0; let D := r.nat 1
+    let mu : List α := r.fl 1; let low : List α := r.fl 2; let high : List α := r.fl 3
+    let sigma : α := (r.fl 4 : List α).getD 0 o.one
+    let nrm := truncNormaliser o sigma mu low high
+    { fs := [bitsOf ((rowsOf D B x).map (lotkaRow o nrm sigma mu low high)), bitsOf [nrm]] }
+  else
+    let ctx := optNat (r.int 0)
+    let (shape, rest) := takeList (r.ints.toList.drop 1)
+    let (inShape, rest) := takeList rest
+    let (B, rest) := takeNat rest
+    let rows := rowsOf (numel inShape) B x
+    if cls == "StandardNormal" then ofExcept1 (stdNormalLogProb o shape inShape ctx rows)
+    else if cls == "DiagonalNormal" then ofExcept1 (diagNormalLogProb o shape inShape ctx (r.fl 1) (r.fl 2) rows)
+    else
+      let (pB, rest) := takeNat rest
+      let (pShape, _) := takeList rest
+      let params := rowsOf (numel pShape) pB (r.fl 1 : List α)
+      if cls == "ConditionalDiagonalNormal" then ofExcept1 (condNormalLogProb o shape inShape ctx pB pShape params rows)
+      else if cls == "ConditionalIndependentBernoulli" then ofExcept1 (bernLogProb o shape inShape ctx pB pShape params rows)
+      else { err := some "bad-class" }
+
+def mean (o : XOps α) (r : Req) : Resp :=
+  let cls := r.str 0
+  if cls == "MoG" then { err := some DErr.noMean.name }
+  else
+    let ctx := optNat (r.int 0)
+    let (shape, rest) := takeList (r.ints.toList.drop 1)
+    if cls == "StandardNormal" then { fs := [bitsOf (stdNormalMean o shape ctx).flatten] }
+    else if cls == "DiagonalNormal" then { fs := [bitsOf (diagNormalMean (r.fl 0 : List α))] }
+    else
+      let (pB, rest) := takeNat rest
+      let (pShape, _) := takeList rest
+      let params := rowsOf (numel pShape) pB (r.fl 0 : List α)
+      if cls == "ConditionalDiagonalNormal" then ofExceptRows (condNormalMean shape ctx pB pShape params)
+      else if cls == "ConditionalIndependentBernoulli" then ofExceptRows (bernMean o shape ctx pB pShape params)
+      else { err := some "bad-class" }
+
+def sample (o : XOps α) (r : Req) : Resp :=
+  let cls := r.str 0
+  let ctx := optNat (r.int 0)
+  if cls == "MoG" then
+    let N := r.nat 1; let F := r.nat 2; let M := r.nat 3
+    let comps := rowsOf N F ((r.ints.toList.drop 4).map Int.toNat)
+    let passes := (rowsOf (N * (F * M * 3)) F (r.fl 0 : List α)).map (rowsOf (F * M * 3) N)
+    ofExceptRows (mogSample o (o.ofFloat (r.d 0)) F M ctx N passes comps (rowsOf N F (r.fl 1)))
+  else if cls == "DiagonalNormal" then ofExceptRows (diagNormalSample (α := α))
+  else
+    let n := r.nat 1
+    let (shape, rest) := takeList (r.ints.toList.drop 2)
+    let D := numel shape
+    if cls == "StandardNormal" then
+      let noise : List α := r.fl 0
+      { fs := [bitsOf (stdNormalSample (rowsOf D (noise.length / (if D == 0 then 1 else D)) noise)).flatten] }
+    else
+      let (pB, rest) := takeNat rest
+      let (pShape, _) := takeList rest
+      let params := rowsOf (numel pShape) pB (r.fl 0 : List α)
+      let noise := rowsOf D (pB * n) (r.fl 1 : List α)
+      if cls == "ConditionalDiagonalNormal" then ofExceptRows (condNormalSample o shape ctx pB pShape params n noise)
+      else if cls == "ConditionalIndependentBernoulli" then ofExceptRows (bernSample o shape ctx pB pShape params n noise)
+      else { err := some "bad-class" }
+
+def kde (o : XOps α) (r : Req) : Resp :=
+  let N := r.nat 0; let D := r.nat 1; let Q := r.nat 2
+  let S := rowsOf D N (r.fl 0 : List α)
+  { fs := [bitsOf ((rowsOf D Q (r.fl 1 : List α)).map (kdeLogEval o D S))] }
+
+def handle (o : XOps α) (r : Req) : Option Resp :=
+  match r.op with
+  | "c05.logprob" => some (logprob o r)
+  | "c05.mean" => some (mean o r)
+  | "c05.sample" => some (sample o r)
+  | "c05.kde" => some (kde o r)
+  | "c05.erf" => some { fs := [bitsOf ((r.fl 0 : List α).map (erfG o))] }
+  | "c05.consts" => some { fs := [bitsOf [piG o, log2piG o, logZ o (r.nat 0)]] }
+  | _ => none
+
+end C05
 
 /-- handler for the ops of this property; `none` = not one of mine -/
-def handleC05 (_r : Req) : Option Resp := none
+def handleC05 (r : Req) : Option Resp :=
+  if r.prec == "f32" then C05.handle float32X r else C05.handle floatX r
 
 end NF
